@@ -161,4 +161,118 @@ theorem gruLayers_instnorm_fails (repl : Bool) (m : Nat) (s : Shape) (stk tr) (h
     simp only [List.append_assoc]
     exact run_append_err ih
 
+/-! ## MWCNN below the minimum: a successful run admits every axis -/
+
+theorem run_append_inv {p q : List Op} {st st' : State} (h : run (p ++ q) st = .ok st') :
+    ∃ s1, run p st = .ok s1 ∧ run q s1 = .ok st' := by
+  rw [run_append] at h
+  cases hp : run p st with
+  | ok s1 => rw [hp] at h; exact ⟨s1, rfl, h⟩
+  | error e => rw [hp] at h; cases h
+
+/-- if a `padEven` step is part of a successful run, every axis admitted it -/
+theorem padEven_inv {g : Nat → Nat} {s : Shape} {stk tr} {ops : List Op} {st' : State}
+    (h : run (.padEven :: ops) ⟨s.map g, stk, tr⟩ = .ok st') : ∀ n ∈ s, padEvenOk (g n) = true := by
+  simp only [run, step, axes] at h
+  split at h
+  · rename_i hs
+    split at hs
+    · rename_i hall
+      intro n hn
+      exact List.all_eq_true.mp hall (g n) (List.mem_map.mpr ⟨n, hn, rfl⟩)
+    · cases hs
+  · cases h
+
+theorem mwBelow_conv (r : Nat) : ∀ (s : Shape) (f : Nat → Nat) (stk tr) (st' : State),
+    (∀ n ∈ s, f n % 2 = 0 ∧ 2 ≤ f n) → run (mwBelow MwP.std r) ⟨s.map f, s.map f :: stk, tr⟩ = .ok st' →
+    ∀ n ∈ s, belowOk r (f n) = true := by
+  induction r with
+  | zero =>
+    intro s f stk tr st' H _ n hn
+    have := H n hn
+    simp [belowOk, this.1, this.2]
+  | succ r ih =>
+    intro s f stk tr st' H hrun n hn
+    rw [mwBelow_split] at hrun
+    -- the first six operations succeed for even axes ≥ 2
+    have pre : ∃ tr1, run [.dwt, .emit, .conv 3 1 1 1, .conv 3 1 2 2, .conv 3 1 1 1, .emit] ⟨s.map f, s.map f :: stk, tr⟩ =
+        .ok ⟨s.map (fun n => dwtOut (f n)), s.map f :: stk, tr1⟩ := by
+      simp (disch := first | decide | (intro n hn; have := H n hn; simp [dwtOk_of_even this.1, dwtOut_of_even this.1] at this ⊢ <;> omega))
+        only [run, stepm_conv_same, stepm_dwt, step_emit]
+      exact ⟨_, rfl⟩
+    obtain ⟨tr1, h1⟩ := pre
+    have hsplit : ([.dwt, .emit, .conv 3 1 1 1, .conv 3 1 2 2, .conv 3 1 1 1, .emit, .padEven, .push] : List Op) ++
+        (mwBelow MwP.std r ++ [.conv 3 1 2 2, .conv 3 1 1 1, .conv 3 1 1 1, .emit, .scale 2, .emit, .popCropSame]) =
+        [.dwt, .emit, .conv 3 1 1 1, .conv 3 1 2 2, .conv 3 1 1 1, .emit] ++ (.padEven :: .push ::
+          (mwBelow MwP.std r ++ [.conv 3 1 2 2, .conv 3 1 1 1, .conv 3 1 1 1, .emit, .scale 2, .emit, .popCropSame])) := rfl
+    rw [hsplit, run_append_ok h1] at hrun
+    have hpad := padEven_inv hrun
+    rw [run_cons_ok (stepm_padEven _ _ hpad), run_cons_ok (step_push _ _ _)] at hrun
+    obtain ⟨s2, h2, _⟩ := run_append_inv hrun
+    have hev : ∀ m ∈ s, f m % 2 = 0 ∧ 2 ≤ f m := H
+    have inner := ih s (fun n => padEvenOut (dwtOut (f n))) (s.map f :: stk) tr1 s2
+      (by intro m hm; have := H m hm; rw [dwtOut_of_even this.1]; simp only [padEvenOut]; omega) h2 n hn
+    have hn' := H n hn
+    have hp := (padEvenOk_iff _).mp (hpad n hn)
+    rw [dwtOut_of_even hn'.1] at inner hp
+    simp only [belowOk, Bool.and_eq_true, Bool.or_eq_true, beq_iff_eq, decide_eq_true_eq]
+    exact ⟨⟨⟨hn'.1, hn'.2⟩, hp⟩, inner⟩
+
+theorem mwcnn_conv (S : Nat) (s : Shape) (stk tr) (st' : State) (hs : Pos s)
+    (hrun : run (mwcnn MwP.std S) ⟨s, stk, tr⟩ = .ok st') : ∀ n ∈ s, mwAxisOk S n = true := by
+  match S with
+  | 0 => intro n _; rfl
+  | 1 =>
+    have e : mwcnn MwP.std 1 = .push :: .padEven :: [.conv 3 1 1 1, .conv 3 1 2 2, .conv 3 1 3 3, .emit, .padEven,
+      .conv 3 1 3 3, .conv 3 1 2 2, .conv 3 1 1 1, .emit, .popCrop] := by decide
+    rw [e, run_cons_ok (step_push _ _ _)] at hrun
+    have hs' : s = s.map id := by simp
+    rw [hs'] at hrun
+    have hpad := padEven_inv hrun
+    intro n hn
+    have := (padEvenOk_iff _).mp (hpad n hn)
+    have := hs n hn
+    simp only [mwAxisOk, Bool.and_eq_true, Bool.or_eq_true, beq_iff_eq, decide_eq_true_eq, id] at *
+    omega
+  | S + 2 =>
+    rw [mwcnn_split] at hrun
+    have hs' : s = s.map id := by simp
+    have hsplit : ([.push, .padEven, .conv 3 1 1 1, .conv 3 1 2 2, .conv 3 1 1 1, .emit, .padEven, .push] : List Op) ++
+        (mwBelow MwP.std S ++ [.conv 3 1 2 2, .conv 3 1 1 1, .conv 3 1 1 1, .emit, .popCrop]) =
+        .push :: .padEven :: ([.conv 3 1 1 1, .conv 3 1 2 2, .conv 3 1 1 1, .emit, .padEven, .push] ++
+          (mwBelow MwP.std S ++ [.conv 3 1 2 2, .conv 3 1 1 1, .conv 3 1 1 1, .emit, .popCrop])) := rfl
+    rw [hsplit, run_cons_ok (step_push _ _ _)] at hrun
+    conv at hrun => lhs; arg 2; rw [hs']
+    have hpad := padEven_inv hrun
+    have H' : ∀ n ∈ s, 1 ≤ n ∧ (n % 2 = 0 ∨ 2 ≤ n) := fun n hn => ⟨hs n hn, (padEvenOk_iff _).mp (hpad n hn)⟩
+    rw [run_cons_ok (stepm_padEven _ _ hpad)] at hrun
+    have mid : ∃ tr1, run [.conv 3 1 1 1, .conv 3 1 2 2, .conv 3 1 1 1, .emit, .padEven, .push]
+        ⟨s.map (fun n => padEvenOut (id n)), s.map id :: stk, tr⟩ = .ok ⟨s.map padEvenOut, s.map padEvenOut :: s.map id :: stk, tr1⟩ := by
+      simp (disch := first | decide | (intro n hn; have := H' n hn; simp [padEvenOk_iff, padEvenOut] at this ⊢ <;> omega))
+        only [run, stepm_conv_same, stepm_padEven, step_emit, step_push]
+      have e : s.map (fun n => padEvenOut (padEvenOut (id n))) = s.map padEvenOut :=
+        List.map_congr_left fun n _ => padEvenOut_idem n
+      rw [e]
+      exact ⟨_, rfl⟩
+    obtain ⟨tr1, h1⟩ := mid
+    rw [run_append_ok h1] at hrun
+    obtain ⟨s2, h2, _⟩ := run_append_inv hrun
+    have inner := mwBelow_conv S s padEvenOut (s.map id :: stk) tr1 s2
+      (by intro m hm; have := H' m hm; simp only [padEvenOut]; omega) h2
+    intro n hn
+    have a := H' n hn
+    have b := inner n hn
+    simp only [mwAxisOk, Bool.and_eq_true, Bool.or_eq_true, beq_iff_eq, decide_eq_true_eq]
+    exact ⟨⟨a.1, a.2⟩, b⟩
+
+theorem mwcnn_fails (S : Nat) (s : Shape) (stk tr) (hs : Pos s) (h : ∃ n ∈ s, mwAxisOk S n = false) :
+    ∃ e, run (mwcnn MwP.std S) ⟨s, stk, tr⟩ = .error e := by
+  cases hr : run (mwcnn MwP.std S) ⟨s, stk, tr⟩ with
+  | error e => exact ⟨e, rfl⟩
+  | ok st' =>
+    obtain ⟨n, hn, hf⟩ := h
+    have := mwcnn_conv S s stk tr st' hs hr n hn
+    rw [this] at hf
+    cases hf
+
 end DirectVerif.C17L
